@@ -1,6 +1,6 @@
-HOOK_COMMITS = []
+HOOK_COMMITS = ["bc7826eeb31079b932557c6566a10da9b9acc9ce"]
 _PENDING = "check not built yet in this round (planned, see DESIGN.md section 9); not a statement that the technique cannot apply"
-NOT_APPLICABLE = {p: _PENDING for p in ["C04","C05","C06","C07","C08","C09","C10","C11","C12","C16"]}
+NOT_APPLICABLE = {p: _PENDING for p in ["C05","C06","C07","C08","C09","C10","C11","C12","C16"]}
 TEXT = {
  "C17": {
   "text": "Lean mirror of integer.h / dyadic_rational.h / rational.h; theorems for every modulus m>=2 and every operand state that each "
@@ -98,6 +98,17 @@ TEXT = {
   "design_ref": "5.19",
   "note": "clause (c) is runtime monitoring on generated inputs, not proof (no executable Lean model can exhibit out-of-bounds access); variable_db/variable_order counters are opaque and observed only via sanitizers",
   "technique": "Lean 4 invariant proof (refcount protocol) + correspondence with aliased/pre-used outputs + sanitizer monitoring",
+ },
+ "C04": {
+  "text": "Every resultant, psc sequence and subresultant chain returned by the C library (lp_polynomial_resultant / _psc / _subres, in the "
+          "argument order given, deg p <, =, > deg q, dense and defective chains, Z and Z_p coefficients in up to two further variables) is "
+          "compared on every run with the determinantal definition evaluated by the Lean model: Sylvester matrix of order k over the proved "
+          "reference ring (C01) and Laplace expansion. Proved in Lean for every matrix size: the model's Laplace expansion denotes "
+          "Matrix.det of the denoted matrix over MvPolynomial N R (C04_det), on top of the C01 homomorphism theorems for +,-,*. "
+          "Not formalised (stated as trusted): that this determinant is Mathlib's Polynomial.resultant (same matrix up to reindexing).",
+  "design_ref": "5.4",
+  "note": "Sylvester order capped at 7; found and fixed: psc/subres sign for deg A < deg B",
+  "technique": "Lean 4 proved determinant reference (Laplace = Matrix.det over the proved polynomial ring) + differential correspondence on every output",
  },
  "C03": {
   "text": "Per-output validation of gcd / lcm / content / primitive part / extended gcd / Bezout by certificate checkers, under all three "
